@@ -1,7 +1,7 @@
 import SupervisorModel.Model.Reread
 /-
   Line protocol for C15:  case reread <old config tokens> -- <new config tokens>   (tokens as in ConfigIO)
-  ops: diff | calls <hex group name>* | after <hex group name>*
+  ops: diff | calls <hex group name>* | callsf <hex,hex|-> <hex group name>* | after <hex group name>*
 -/
 namespace Sv.Reread
 open Sv.Config
@@ -39,9 +39,15 @@ def runCase (cfg : List String) (ops : List String) : List String :=
           | .error _ => "CANT_REREAD"
         | "calls" :: args =>
           match decodeArgs args, r.1 with
-          | some as, .ok (a, c, rm) => " ".intercalate ((updateCalls (validNames as) a c rm).map callS)
+          | some as, .ok (a, c, rm) => " ".intercalate ((updateCalls (validNames as) [] a c rm).map callS)
           | some _, .error _ => "CANT_REREAD"
           | none, _ => "bad-op"
+        | "callsf" :: fl :: args =>
+          -- fl: comma-separated hex names of the groups whose stop reports a failure ("-" for none)
+          match decodeArgs (if fl == "-" then [] else fl.splitOn ","), decodeArgs args, r.1 with
+          | some fs, some as, .ok (a, c, rm) => " ".intercalate ((updateCalls (validNames as) fs a c rm).map callS)
+          | some _, some _, .error _ => "CANT_REREAD"
+          | _, _, _ => "bad-op"
         | "after" :: args =>
           match decodeArgs args, parsed with
           | some as, .ok new => namesS ((doUpdate st new as).active.map (·.cfg.name))
